@@ -330,6 +330,28 @@ class SymNP:
             a = _np.asarray(a.tolist(), dtype=float)
         return _np.argmax(a, axis=axis, **kw)
 
+    def searchsorted(self, a, v, side="left", sorter=None):
+        """np.searchsorted for a concrete sorted `a`: the index of a symbolic key is the number of entries of `a`
+        that are < key (left) / <= key (right); one decision per key and boundary."""
+        if sorter is None and not A.any_symbolic(a) and A.any_symbolic(v):
+            av = [x for x in _np.asarray(a).ravel().tolist()]
+            if any(av[i] > av[i + 1] for i in range(len(av) - 1)):
+                raise Unsupported("searchsorted on an unsorted array")
+
+            def one(key):
+                k = 0
+                for x in av:
+                    if bool((x < key) if side == "left" else (x <= key)):
+                        k += 1
+                    else:
+                        break
+                return k
+
+            if isinstance(v, _np.ndarray):
+                return _np.array([one(k) for k in _np.asarray(v, dtype=object).ravel().tolist()], dtype=_np.intp).reshape(_np.shape(v))
+            return one(v)
+        return _np.searchsorted(a, v, side=side, sorter=sorter)
+
     def argmin(self, a, axis=None, **kw):
         if A.any_symbolic(a):
             return A.to_symarray(a).argmin(axis)
